@@ -46,6 +46,26 @@ def text_models_case(rec):
         # the implementation-shaped model no longer describes separator_format.  Only the io group
         # decides whether the property holds; this is reported as drift.
         drift.append(("separator_format", real, sep_file))
+    # the property at text level, on cogent3's own reader configuration: the text csv.writer
+    # produced for this table, read by parse.table.load_delimited, is the table
+    from cogent3.parse.table import load_delimited
+
+    p = _workdir() / f"d{next(_counter)}.txt"
+    p.write_text(buf.getvalue())
+    try:
+        header, body, _, _ = load_delimited(p, header=True, sep=sep)
+        loaded = [header] + body
+    except Exception as ex:  # the reader may not refuse what the writer wrote
+        loaded = f"exception:{type(ex).__name__}"
+    finally:
+        p.unlink(missing_ok=True)
+    if loaded != rows:
+        sepname = "comma" if sep == "," else "tab"
+        return (
+            f"TextModels:load_delimited:{sepname}:{'text' if isinstance(loaded, list) else loaded}",
+            "load_delimited(csv.writer(t)) != t",
+            {"table": rows, "file": buf.getvalue(), "loaded": loaded},
+        )
     if drift:
         return "__drift__", drift[0][0], {"drift": [list(map(repr, d)) for d in drift]}
     return None
@@ -200,6 +220,7 @@ def check_text(run, stats, replay, jobs):
     run.assumptions += [
         "delimited text has no notation for a missing value: a None cell may come back as '' or 'None' (Demanded.missing in TableText.tla)",
         "str cells that read as numbers/bools may come back typed (documented inference); their text must be unchanged",
+        "str cells that are a number or True/False/None padded with blanks (' 10', 'True ') are outside the model: the documented inference reads them as the value, like int(' 10')",
         "to_csv()/to_tsv() text is stored with a final newline, as Table.write does for string formats; model floats are exact at digits=4",
         "csv.writer / csv.reader / separator_format models are bound to the real functions on every design table; a mismatch is MODEL-DRIFT, not a violation",
     ]
